@@ -70,6 +70,25 @@ type world struct {
 	insts       []api.Module
 	fns         [][2]api.Function
 	startScript uint64
+	trace       []string // host function calls: "<fn>:<name of the module the host function was given>"
+}
+
+func (w *world) saw(fn string, mod api.Module) {
+	name := "<nil>"
+	if mod != nil {
+		name = mod.Name()
+	}
+	w.trace = append(w.trace, fn+":"+name)
+}
+
+// hostPeek reads the log length from the memory of the module it is given: the calling guest.
+func (w *world) hostPeek(ctx context.Context, mod api.Module) uint32 {
+	w.saw("peek", mod)
+	v, ok := mod.Memory().ReadUint32Le(0)
+	if !ok {
+		panic("peek: memory of the calling module is unreadable")
+	}
+	return v
 }
 
 func (w *world) hostPanic(kind uint32) {
@@ -93,6 +112,7 @@ func (w *world) hostPanic(kind uint32) {
 }
 
 func (w *world) hostClose(ctx context.Context, mod api.Module, code uint32, noReturn uint32) {
+	w.saw("hclose", mod)
 	_ = mod.CloseWithExitCode(ctx, code)
 	if noReturn != 0 {
 		panic(sys.NewExitError(code))
@@ -102,6 +122,7 @@ func (w *world) hostClose(ctx context.Context, mod api.Module, code uint32, noRe
 // hostCallback is the re-entrant host function: it obtains a fresh api.Function and calls it
 // with the context it was given. mode 0 re-panics with the error, mode 1 swallows it.
 func (w *world) hostCallback(ctx context.Context, mod api.Module, target, mode uint32, script uint64) uint32 {
+	w.saw("cb", mod)
 	tm := mod
 	if target < 3 && int(target) < len(w.insts) {
 		tm = w.insts[target]
@@ -153,7 +174,8 @@ func newWorld(ctx context.Context, engine string, ninst int) (*world, error) {
 		return nil, err
 	}
 	_, err := w.rt.NewHostModuleBuilder("env").
-		NewFunctionBuilder().WithFunc(func(ctx context.Context, k uint32) { w.hostPanic(k) }).Export("hp").
+		NewFunctionBuilder().WithFunc(func(ctx context.Context, mod api.Module, k uint32) { w.saw("hp", mod); w.hostPanic(k) }).Export("hp").
+		NewFunctionBuilder().WithFunc(w.hostPeek).Export("peek").
 		NewFunctionBuilder().WithFunc(w.hostClose).Export("hclose").
 		NewFunctionBuilder().WithFunc(w.hostCallback).Export("cb").
 		NewFunctionBuilder().WithFunc(func(ctx context.Context) uint64 { return w.startScript }).Export("startscript").
@@ -354,6 +376,26 @@ func tail(l []uint32) string {
 	return fmt.Sprintf("%x", l)
 }
 
+// checkRegistry: the host modules stay open and registered whatever the guests did, and every
+// instance the model has open is still the one registered under its name.
+func (w *world) checkRegistry(m *model) string {
+	for _, name := range []string{"env", wasi_snapshot_preview1.ModuleName} {
+		hm := w.rt.Module(name)
+		if hm == nil {
+			return fmt.Sprintf("host module %q is no longer registered in the runtime", name)
+		}
+		if hm.IsClosed() {
+			return fmt.Sprintf("host module %q is closed", name)
+		}
+	}
+	for i, mod := range w.insts {
+		if !m.insts[i].closed && w.rt.Module(m.insts[i].name) != mod {
+			return fmt.Sprintf("instance %s is open in the model but is no longer the module registered under its name", m.insts[i].name)
+		}
+	}
+	return ""
+}
+
 // ---- running a case ----
 
 type runStats struct {
@@ -395,6 +437,7 @@ func runCase(c *Case) (msg string, st runStats) {
 		}
 		script := pack(s.Ops)
 		*m = model{insts: m.insts, nmain: m.nmain}
+		w.trace = nil
 		for _, in := range m.insts {
 			in.recDelta = 0
 		}
@@ -461,7 +504,7 @@ func runCase(c *Case) (msg string, st runStats) {
 				continue
 			}
 			lbl(fmt.Sprintf("start-step:%d", s.Start))
-			m.insts = append(m.insts, &minst{peer: s.Inst})
+			m.insts = append(m.insts, &minst{peer: s.Inst, name: "s"})
 			si := len(m.insts) - 1
 			var want *failure
 			if m.insts[s.Inst].closed {
@@ -526,6 +569,16 @@ func runCase(c *Case) (msg string, st runStats) {
 		if m.onClosed > 0 {
 			lbl("call-on-closed-instance")
 		}
+		if m.viaTable > 0 {
+			lbl("host-function-reached-through-table")
+		}
+		// which module every host function call was given: the instance whose code made the call
+		if fmt.Sprint(w.trace) != fmt.Sprint(m.trace) {
+			return fmt.Sprintf("%s: the host functions were called for modules %v, the model (a host function is given the calling guest instance) has %v", where(), w.trace, m.trace), st
+		}
+		if d := w.checkRegistry(m); d != "" {
+			return where() + ": " + d, st
+		}
 		for _, op := range s.Ops {
 			if byte(op) >= opRec && byte(op) < opRec+nRecKinds {
 				st.recursions++
@@ -552,6 +605,12 @@ func runCase(c *Case) (msg string, st runStats) {
 			}
 			recFrames[key] = frames
 		}
+	}
+	// the runtime is still usable: a further guest links against the host modules and runs
+	if mod, err := w.instantiate("", startNone, "probe"); err != nil {
+		return fmt.Sprintf("after the history on %s: a new guest cannot be instantiated any more: %v", c.Engine, firstLine(err)), st
+	} else if r, err := mod.ExportedFunction("run").Call(ctx, pack([]int{opPeek})); err != nil || len(r) != 1 || r[0] != 1 {
+		return fmt.Sprintf("after the history on %s: a new guest's first call gives (%v, %v), expected 1", c.Engine, r, err), st
 	}
 	if st.recursions > 0 && c.Engine == "compiler" {
 		// the abandoned native stacks are large; give them back before the next history
@@ -580,7 +639,7 @@ func genOps(t *rapid.T, ninst int, recBudget *int, inStart bool) []int {
 				// something callers are documented to do
 				tgt = 0
 			}
-			ops = append(ops, opCallback|tgt<<1|rapid.IntRange(0, 1).Draw(t, "cb-mode"))
+			ops = append(ops, opCallback|tgt<<1|rapid.IntRange(0, 1).Draw(t, "cb-mode")|opCbTable*rapid.IntRange(0, 1).Draw(t, "cb-via-table"))
 		case "local":
 			ops = append(ops, opNestLocal)
 		case "peer":
@@ -589,7 +648,11 @@ func genOps(t *rapid.T, ninst int, recBudget *int, inStart bool) []int {
 			ops = append(ops, opNestIndirect)
 		}
 	}
-	term := rapid.SampledFrom([]string{"ok", "ok", "ok", "ok", "ok", "ok", "ok", "trap", "trap", "trap", "trap", "panic", "panic", "exit", "rec"}).Draw(t, "terminal")
+	term := rapid.SampledFrom([]string{"ok", "ok", "ok", "ok", "ok", "ok", "peek", "trap", "trap", "trap", "trap", "panic", "panic", "exit", "rec"}).Draw(t, "terminal")
+	via := 0
+	if term == "peek" || term == "panic" || term == "exit" {
+		via = opViaTable * rapid.IntRange(0, 1).Draw(t, "via-table")
+	}
 	if term == "rec" && *recBudget == 0 {
 		term = "trap"
 	}
@@ -599,9 +662,11 @@ func genOps(t *rapid.T, ninst int, recBudget *int, inStart bool) []int {
 	case "trap":
 		ops = append(ops, rapid.IntRange(opUnreachable, opAtomicRMWOOB).Draw(t, "trap"))
 	case "panic":
-		ops = append(ops, opHostPanic+rapid.IntRange(0, nPanicKinds-1).Draw(t, "panic"))
+		ops = append(ops, via+opHostPanic+rapid.IntRange(0, nPanicKinds-1).Draw(t, "panic"))
+	case "peek":
+		ops = append(ops, via+opPeek)
 	case "exit":
-		ops = append(ops, rapid.SampledFrom([]int{opProcExit, opProcExit, opCloseCont, opCloseTrap, opCloseNoRet}).Draw(t, "exit-kind"),
+		ops = append(ops, via+rapid.SampledFrom([]int{opProcExit, opProcExit, opCloseCont, opCloseTrap, opCloseNoRet}).Draw(t, "exit-kind"),
 			rapid.SampledFrom(exitBytes).Draw(t, "exit-code"))
 	case "rec":
 		*recBudget--
